@@ -27,7 +27,7 @@ HYPOTHESES = [
     "(pi(65536) = 6542 computed in the kernel with a verified trial-division test)",
 ]
 PROFILES = ["release", "chk"]
-TIMEOUT = 120.0
+TIMEOUT = 25.0
 RULE = ("primes(k): every k <= 20000 (oracle; model-compared for k <= 800 and a sample beyond), the full list for k = 20000, boundary k of the "
         "bound formula, the u32-overflow k in the checked profile; PrimeSieve: blocks 0..39, 200 sampled, the last 3 and the end markers "
         "element-wise against an independent segmented sieve, the complete walk of 65536 blocks (count, order, emptiness, end); "
@@ -191,17 +191,19 @@ def b1_values(tier, rng, extended, lo):
     vals.update(range(4096 - 150, 4096 + 151))
     vals.update(range(65536 - 150, 65536 + 151))
     vals.update(x for x in prime_power_neighbours(top) if x >= lo)
-    n = 120 if tier == "quick" else 600
+    n = 120 if tier == "quick" else 240
     if extended:
         n *= 8
     for _ in range(n):
-        c = rng.randrange(4)
-        if c == 0:
+        c = rng.randrange(8)
+        if c < 2:
             vals.add(rng.randrange(5000, 70000))
-        elif c == 1:
+        elif c < 4:
             vals.add(rng.randrange(65536, 200000))
+        elif c < 7 or tier == "quick":
+            vals.add(rng.randrange(70000, 10 ** 6 + 1))
         else:
-            vals.add(rng.randrange(70000, top + 1))
+            vals.add(rng.randrange(10 ** 6, top + 1))
     vals.update({10 ** 5, 500000, 10 ** 6, top})
     return sorted(vals)
 
@@ -272,60 +274,96 @@ def required_powers(b1, include_equal):
     return out
 
 
+def product(xs):
+    xs = list(xs)
+    if not xs:
+        return 1
+    while len(xs) > 1:
+        xs = [xs[i] * xs[i + 1] if i + 1 < len(xs) else xs[i] for i in range(0, len(xs), 2)]
+    return xs[0]
+
+
 def missing_power(blocks, b1, include_equal):
-    """None when every prime power below b1 (and every prime <= b1 if include_equal) divides prod(blocks),
-    else a prime power that does not.  Valuations are accumulated block by block: the blocks are factored over the
-    primes in increasing order starting where the previous block ended (any order of the blocks is handled, only slower)."""
+    """None when every prime power below b1 (and every prime <= b1 if include_equal) divides prod(blocks), else a
+    prime power that does not.
+    Fast path: the blocks of a correct implementation are products of powers of consecutive primes, so they are
+    factored by walking the prime list once.  Any block that does not have this shape sends the case to the general
+    path (bounded cost): the product E of all blocks is tested against the first 300 required prime powers and a
+    deterministic sample of 300 others, then against the product of all of them."""
     req = required_powers(b1, include_equal)
     plist = [p for p, _ in req]
+    n = len(plist)
     val = {}
     j = 0
-    n = len(plist)
+    clean = True
     for blk in blocks:
         r = blk
         if r == 0:
             return (0, 0)
-        start = j
-        i = j
-        while r > 1 and i < n:
-            p = plist[i]
+        while r > 1:
+            if j >= n:
+                clean = False
+                break
+            p = plist[j]
+            if r % p != 0:
+                clean = False
+                break
             while r % p == 0:
                 r //= p
                 val[p] = val.get(p, 0) + 1
-            i += 1
-        if r > 1:
-            # not a product of primes >= the previous position: scan the primes before it as well
-            for t in range(0, start):
-                p = plist[t]
-                while r % p == 0:
-                    r //= p
-                    val[p] = val.get(p, 0) + 1
-                if r == 1:
-                    break
-            j = start
-        else:
-            j = max(start, i - 1)
-    for p, q in req:
-        e = 0
-        t = q
-        while t > 1:
-            t //= p
-            e += 1
-        if val.get(p, 0) < e:
+            j += 1
+        if not clean:
+            break
+    if clean:
+        for p, q in req:
+            e = 0
+            t = q
+            while t > 1:
+                t //= p
+                e += 1
+            if val.get(p, 0) < e:
+                return (p, q)
+        return None
+    E = product(blocks)
+    import random as _r
+    rr = _r.Random(b1)
+    sample = req[:300] + (rr.sample(req[300:], min(300, len(req) - 300)) if len(req) > 300 else [])
+    for p, q in sorted(sample):
+        if E % q:
             return (p, q)
-    return None
+    L = product(q for _, q in req)
+    if E % L == 0:
+        return None
+    lo, hi = 0, len(req)          # binary search for one missing prime power: prod(req[lo:hi]) does not divide E
+    while hi - lo > 1:
+        mid = (lo + hi) // 2
+        if E % product(q for _, q in req[lo:mid]):
+            hi = mid
+        else:
+            lo = mid
+    return req[lo]
 
 
 _MEMO = {}
+
+
+_FAILS = {}
+FAIL_BUDGET = 40
 
 
 def oracle(case, ans):
     # both profiles usually give the same answer: judge it once
     key = (case.line, hash(ans), len(ans))
     if key not in _MEMO:
+        # once an op has failed FAIL_BUDGET times the verdict is settled (VIOLATION with the shortest failing request as
+        # replay); further answers of that op are not analysed (the general path of the oracle is slow on garbage)
+        if _FAILS.get(case.op, 0) >= FAIL_BUDGET:
+            return None
         if len(_MEMO) > 200000:
             _MEMO.clear()
         _MEMO[key] = oracle1(case, ans)
+        if _MEMO[key]:
+            _FAILS[case.op] = _FAILS.get(case.op, 0) + 1
     return _MEMO[key]
 
 
@@ -410,6 +448,49 @@ def oracle1(case, ans):
 
 # ---------------------------------------------------------------- distribution
 
+def sb_rules(b1, use_large):
+    """which flush rules of SmoothBase::new fire for this input (labels the input distribution only):
+    1 = small-prime rule, 2f/2l = full buffer to factors / to the large buffer, 3 = large buffer pushed,
+    ff/fl = final buffer to factors / large, fL = final large block pushed"""
+    if b1 > 200000 or b1 >= 1 << 32:
+        return "-"
+    fired = set()
+    buf, lg = 1, 1
+    for p in primes_upto(max(b1, 2)):
+        if p >= b1:
+            break
+        pw = p
+        while pw * p < b1:
+            pw *= p
+        if p == 2:
+            pw *= 16
+        if p == 3:
+            pw *= 3
+        if p < 256 and buf > 1 << 32:
+            fired.add("1")
+            buf = 1
+        if (1 << (64 - buf.bit_length())) <= pw:
+            if p < 4096 or not use_large:
+                fired.add("2f")
+            else:
+                fired.add("2l")
+                lg *= buf
+            buf = 1
+        if lg.bit_length() > 960:
+            fired.add("3")
+            lg = 1
+        buf *= pw
+    if buf > 1:
+        if b1 < 4096 or not use_large:
+            fired.add("ff")
+        else:
+            fired.add("fl")
+            lg *= buf
+    if lg > 1:
+        fired.add("fL")
+    return "+".join(sorted(fired)) or "none"
+
+
 def klass(case, ans):
     op, a = case.op, case.args
     bad = ""
@@ -436,9 +517,8 @@ def klass(case, ans):
         if bad:
             return f"{op}/{src}{bad}"
         f, l = ans.split("|")
-        big = any(x > 1 << 32 for x in parse_list(f)[:3])
         shape = ("larges" if l != "-" else "no-larges") + ("/b1<4096" if b1 < 4096 else "/b1>=4096") + ("/use_large" if a[1] in ("1", "true") else "/no_large")
-        return f"{op}/{src}/{shape}"
+        return f"{op}/{src}/{shape}/rules={sb_rules(b1, a[1] in ('1', 'true'))}"
     if op == "pm1_exponents":
         b1 = int(a[0])
         return f"{op}/{'small-blocks' if b1 < 65536 else 'large-blocks'}{bad}"
@@ -454,12 +534,15 @@ def finding_key(case, ans, profile):
 
 
 CLAIM = ("Lean theorems about executable models of fbase::primes, PrimeSieve, SmoothBase::new, PM1Base::new and the stage-1 exponent stream of "
-         "pm1_impl: primes(n) is the increasing list of all primes below the sieve bound truncated to n entries (the first n primes under the "
-         "named Rosser-type hypothesis); every block of the segmented sieve is exactly the primes of its interval, nothing after block 65535; the "
-         "exponent blocks never overflow u64 / 1024 bits and their product is divisible by every prime power below B1 (pm1: also every prime <= "
-         "B1); the pre-fix flush threshold 1024-32 of pm1 overflows (witness B1 = 65536, replayed on the code). Models are tied to the code by "
+         "pm1_impl: primes(n) is the increasing list of all primes below the sieve bound truncated to n entries (= the first n primes for n <= 564 "
+         "outright, for every n under the named Rosser-type hypothesis); call b+1 of the segmented sieve returns exactly the primes of "
+         "[65536 b, 65536 (b+1)) for every b < 65536 (block 0 = all primes below 2^16 is proved, pi(65536) = 6542 computed in the kernel), the "
+         "offsets are the canonical ones for every block, nothing after block 65535; SmoothBase::new (B1 <= 2^24 outright, B1 < 65535*65536 "
+         "under the named prime-gap hypothesis), pm1 stage 1 (every 4 <= B1 < 4294967291) and PM1Base never overflow u64 / u32 / 1024 bits and "
+         "the product of their blocks is divisible by every prime power below B1 (pm1: also every prime <= B1); the pre-fix flush threshold "
+         "1024-32 of pm1 overflows for B1 = 65536 (witness theorem, replayed on the code with the fix reverted). Models are tied to the code by "
          "differential runs in the release and checked profiles; a Python oracle with its own sieve judges every implementation answer.")
 LEVEL_NOTE = ("Trusted: Lean kernel; hand-written models' correspondence to the Rust code (sampled, both profiles); Python integers in the oracle. "
-              "Named hypotheses (not axioms): HRosser, HSmall, HGap — see hypotheses_of_theorems. The pm1 stream is the one for a modulus on "
-              "which the early exits never fire.")
+              "Named hypotheses (not axioms): HRosser beyond k = 564, HGap beyond B1 = 2^24 — see hypotheses_of_theorems. The pm1 stream is the one "
+              "for a modulus on which the data-dependent early exits of stage 1 never fire (the harness uses a 63-bit safe prime).")
 TECHNIQUE = "Lean 4 proof about a hand model + differential correspondence check + spec oracle"
